@@ -56,43 +56,67 @@ class Recorder:
 
 
 def install_proxy(rec):
+    """Proxy around sqlite3.connect: logs every statement / commit; everything else is passed through, so
+    that equivalent ways of using the sqlite3 API (conn.execute, `with conn:`, executemany) stay observable."""
+
+    def logged_execute(no, fn, sql, a, many=False):
+        if sql.lstrip().upper().startswith("INSERT INTO INDIVIDUALS"):
+            rows = list(a[0]) if many else [a[0]]
+            tags = ["upsert %d %d %d" % (no, r[0], blob_hash(r[1])) for r in rows]
+            a = (rows,) if many else a
+        elif sql.lstrip().upper().startswith("PRAGMA"):
+            tags = ["pragma %d" % no]
+        else:
+            tags = ["sql %d %s" % (no, sql.split()[0])]
+        for t in tags:
+            rec.tick("pre-" + t)
+        try:
+            r = fn(sql, *a)
+        except sqlite3.Error as e:
+            for t in tags:
+                rec.tick("fail-" + t + " " + type(e).__name__)
+            raise
+        if sql.lstrip().upper().startswith("PRAGMA JOURNAL_MODE"):
+            try:
+                mode = r.fetchall()
+                rec.tick("journal-mode %d %s" % (no, mode[0][0] if mode else "?"))
+            except sqlite3.Error:
+                pass
+        for t in tags:
+            rec.tick("post-" + t)
+        return r
+
     class Cur:
         def __init__(s, c, no):
             s.c, s.no = c, no
 
         def execute(s, sql, *a):
-            if sql.startswith("INSERT INTO individuals"):
-                ident, text = a[0][0], a[0][1]
-                tag = "upsert %d %d %d" % (s.no, ident, blob_hash(text))
-            elif sql.startswith("PRAGMA"):
-                tag = "pragma %d" % s.no
-            else:
-                tag = "sql %d %s" % (s.no, sql.split()[0])
-            rec.tick("pre-" + tag)
-            try:
-                r = s.c.execute(sql, *a)
-            except sqlite3.Error as e:
-                rec.tick("fail-" + tag + " " + type(e).__name__)
-                raise
-            if sql.startswith("PRAGMA journal_mode"):
-                try:
-                    mode = s.c.fetchall()
-                    rec.tick("journal-mode %d %s" % (s.no, mode[0][0] if mode else "?"))
-                except sqlite3.Error:
-                    pass
-            rec.tick("post-" + tag)
-            return r
+            logged_execute(s.no, s.c.execute, sql, a)
+            return s
 
-        def fetchall(s):
-            return s.c.fetchall()
+        def executemany(s, sql, *a):
+            logged_execute(s.no, s.c.executemany, sql, a, many=True)
+            return s
+
+        def __iter__(s):
+            return iter(s.c)
+
+        def __getattr__(s, name):
+            return getattr(s.c, name)
 
     class Conn:
         def __init__(s, *a, **k):
             s.no = rec.new_conn()
             s.c = _real_connect(*a, **k)
 
-        def cursor(s):
-            return Cur(s.c.cursor(), s.no)
+        def cursor(s, *a, **k):
+            return Cur(s.c.cursor(*a, **k), s.no)
+
+        def execute(s, sql, *a):
+            return s.cursor().execute(sql, *a)
+
+        def executemany(s, sql, *a):
+            return s.cursor().executemany(sql, *a)
 
         def commit(s):
             rec.tick("pre-commit %d" % s.no)
@@ -103,8 +127,22 @@ def install_proxy(rec):
                 raise
             rec.tick("post-commit %d" % s.no)
 
-        def close(s):
-            return s.c.close()
+        def rollback(s):
+            rec.tick("rollback %d" % s.no)
+            return s.c.rollback()
+
+        def __enter__(s):
+            return s
+
+        def __exit__(s, et, ev, tb):
+            if et is None:
+                s.commit()
+            else:
+                s.rollback()
+            return False
+
+        def __getattr__(s, name):
+            return getattr(s.c, name)
 
     sqlite3.connect = lambda *a, **k: Conn(*a, **k)
 
@@ -215,11 +253,23 @@ def parse_log(path):
 
 
 def model_events(evs):
-    """Translate the log to model events; returns (events, index of an in-flight commit or None)."""
+    """Translate the log to model events; returns (events, connections with an in-flight commit).
+    A rolled-back statement is one that was never executed as far as the file is concerned."""
     out = []
     inflight = []
+    rolled = set()
+    pend = {}
     for i, e in enumerate(evs):
         if e[0] == "post-upsert":
+            pend.setdefault(e[1], []).append(i)
+        elif e[0] == "post-commit":
+            pend.pop(e[1], None)
+        elif e[0] == "rollback":
+            rolled.update(pend.pop(e[1], []))
+    for i, e in enumerate(evs):
+        if e[0] == "post-upsert" and i in rolled:
+            out.append("o")
+        elif e[0] == "post-upsert":
             out.append("u:%s:%s:%s" % (e[1], e[2], e[3]))
         elif e[0] == "post-commit":
             out.append("c:%s" % e[1])
